@@ -42,7 +42,7 @@ func (m mspec) String() string {
 	for _, x := range m.Sub {
 		s = append(s, x.String())
 	}
-	return map[string]string{"and": "And", "or": "Or"}[m.K] + "(" + strings.Join(s, ", ") + ")"
+	return map[string]string{"and": "And", "or": "Or", "andf": "AndFunc", "orf": "OrFunc"}[m.K] + "(" + strings.Join(s, ", ") + ")"
 }
 
 func (m mspec) build() mux.Matcher {
@@ -62,8 +62,18 @@ func (m mspec) build() mux.Matcher {
 	for _, x := range m.Sub {
 		sub = append(sub, x.build())
 	}
-	if m.K == "and" {
+	switch m.K {
+	case "and":
 		return mux.AndMatcher(sub...)
+	case "andf", "orf": // the func-flavoured entry points: the same combinations, by contract
+		var fs []func(*http.Request, *types.Context) bool
+		for _, x := range sub {
+			fs = append(fs, x.Match)
+		}
+		if m.K == "andf" {
+			return mux.AndMatcherFunc(fs...)
+		}
+		return mux.OrMatcherFunc(fs...)
 	}
 	return mux.OrMatcher(sub...)
 }
@@ -139,7 +149,7 @@ func (m mspec) eval(g greq) (greq, bool) {
 			}
 		}
 		return g, false
-	case "and":
+	case "and", "andf":
 		cur := g
 		for _, x := range m.Sub {
 			n, ok := x.eval(cur)
@@ -149,7 +159,7 @@ func (m mspec) eval(g greq) (greq, bool) {
 			cur = n
 		}
 		return cur, true
-	case "or":
+	case "or", "orf":
 		for _, x := range m.Sub {
 			if n, ok := x.eval(g); ok {
 				return n, true
@@ -186,6 +196,12 @@ func c13Matchers() []mspec {
 		{K: "and", Sub: []mspec{pv1}},
 		// members writing the SAME parameter name: a rejected inner And must give the outer value back
 		{K: "and", Sub: []mspec{{K: "hv", Args: []string{"v", "", "1"}}, {K: "or", Sub: []mspec{{K: "and", Sub: []mspec{pv1, ha}}, hb}}}},
+		// an And entered with an empty context whose first member captures and whose second rejects, inside an Or whose
+		// next member accepts without writing that parameter
+		{K: "or", Sub: []mspec{{K: "and", Sub: []mspec{pv1, ha}}, hb}},
+		// the func-flavoured constructors
+		{K: "andf", Sub: []mspec{pv1, ha}},
+		{K: "orf", Sub: []mspec{{K: "andf", Sub: []mspec{pv1, ha}}, hb}},
 	}
 }
 
@@ -492,7 +508,7 @@ func routerAfter(model []*grouter, first, second string) bool {
 
 func hasComposite(model []*grouter) bool {
 	for _, r := range model {
-		if r.m.K == "and" || r.m.K == "or" {
+		if len(r.m.K) >= 2 && (r.m.K[:2] == "an" || r.m.K[:2] == "or") {
 			return true
 		}
 	}
@@ -509,7 +525,7 @@ func init() {
 	explore.Register(&explore.Check{ID: "C13", Run: func(rc *explore.RunCtx) {
 		ms := c13Matchers()
 		rc.Assume = append(rc.Assume,
-			"groups: every ordered list of <= 2 routers (quick; <= 3 thorough, and quick lists of 3 with a composite first or second) with matchers from {nil, Hosts(a.com), Hosts({sub}.a.com), PathVersion v1, PathVersion v2, HeaderVersion 1, And(PV1,Hosts a), And(Hosts a,PV1), Or(And(PV1,Hosts a),PV1), Or(Hosts b,PV2), And(HV1,Hosts b), And(Hosts {sub}.a,PV1,HV1)}, built by New or Add, with Group.Use at every position, Remove of each router and a duplicate-name attempt",
+			"groups: every ordered list of <= 2 routers (quick; <= 3 thorough, and quick lists of 3 with a composite first or second) with matchers from {nil, Hosts(a.com), Hosts({sub}.a.com), PathVersion v1, PathVersion v2, HeaderVersion 1, And(PV1,Hosts a), And(Hosts a,PV1), Or(And(PV1,Hosts a),PV1), Or(Hosts b,PV2), And(HV1,Hosts b), And(Hosts {sub}.a,PV1,HV1), Or(And(PV1,Hosts a),Hosts b), AndMatcherFunc(PV1,Hosts a), OrMatcherFunc(AndMatcherFunc(PV1,Hosts a),Hosts b)}, built by New or Add, with Group.Use at every position, Remove of each router and a duplicate-name attempt",
 			"requests: Host {a.com, b.com, s.a.com, A.COM:80} x path {/x, /v1/x, /v2/x, /v1, /v1/v1/x, /zz} x Accept {absent, version=1, version=2, garbage} x method {GET, POST, OPTIONS}",
 			"reference: pure matchers evaluated on the request as originally received, And = sequential with effects vanishing on rejection, Or = first accepting member; the winner must answer as a stand-alone table model of that router does for the produced request, with the matcher's parameters added; no winner = group not-found with the group's Use trail and router name \"\"")
 		var items []c13Item
@@ -557,7 +573,7 @@ func init() {
 				if rc.Quick() && len(cur) == 2 {
 					// triples whose first or second matcher is composite
 					for m := range ms {
-						if ms[cur[0]].K == "and" || ms[cur[0]].K == "or" || ms[cur[1]].K == "and" || ms[cur[1]].K == "or" {
+						if ms[cur[0]].K == "and" || ms[cur[0]].K == "or" || ms[cur[1]].K == "and" || ms[cur[1]].K == "or" || ms[cur[0]].K == "andf" {
 							emit(append(append([]int{}, cur...), m))
 						}
 					}
